@@ -59,6 +59,11 @@ class EqInfo:
         for n in walk_no_nested(fn):
             if isinstance(n, ast.Assign) and len(n.targets) == 1 and isinstance(n.targets[0], ast.Name):
                 defs.setdefault(n.targets[0].id, []).append(n.value)
+        for n in walk_no_nested(fn):
+            if isinstance(n, ast.With):
+                for it in n.items:
+                    if isinstance(it.optional_vars, ast.Name):
+                        defs.setdefault(it.optional_vars.id, []).append(it.context_expr)
         owner = {}  # buffer name -> operand written into it
         for c in walk_no_nested(fn):
             if isinstance(c, ast.Call) and isinstance(c.func, ast.Attribute) and c.func.attr in ("_write", "write", "bwrite") and isinstance(c.func.value, ast.Name) \
@@ -92,7 +97,11 @@ class EqInfo:
                 continue
             if norm(leaf) == "NotImplemented":
                 continue
-            if any(norm(t) == norm(leaf) and not pol for t, pol in guards):
+            def strip(t, pol):
+                while isinstance(t, ast.UnaryOp) and isinstance(t.op, ast.Not):
+                    t, pol = t.operand, not pol
+                return t, pol
+            if any(norm(strip(t, pol)[0]) == norm(leaf) and not strip(t, pol)[1] for t, pol in guards):
                 continue  # `if not c: return c`
             conj = []
             for t, pol in guards:
